@@ -108,17 +108,25 @@ Proof.
   rewrite E. reflexivity.
 Qed.
 
+(* an ack for a fragment that has not been sent yet (sentlen = 0) is not an ack *)
+Lemma dack_unsent u s f : p_sentlen (u_out u) = 0%N -> process_downstream_ack u s f = u.
+Proof.
+  intros H. unfold process_downstream_ack. destruct (p_len (u_out u) =? 0)%N; [reflexivity|].
+  destruct (negb _); [reflexivity|]. rewrite H. reflexivity.
+Qed.
+
 Lemma dack_next u :
   let o := u_out u in
-  p_len o <> 0%N -> (p_offset o + p_sentlen o < p_len o)%N ->
+  p_len o <> 0%N -> p_sentlen o <> 0%N -> (p_offset o + p_sentlen o < p_len o)%N ->
   let u' := process_downstream_ack u (Z.of_N (p_seqno o)) (p_fragment o) in
   p_fragment (u_out u') = schar_wrap (p_fragment o + 1) /\ p_seqno (u_out u') = p_seqno o /\
   p_offset (u_out u') = (p_offset o + p_sentlen o)%N /\ p_len (u_out u') = p_len o /\ p_data (u_out u') = p_data o.
 Proof.
-  intros o Hl Hm. unfold process_downstream_ack. fold o.
+  intros o Hl Hs Hm. unfold process_downstream_ack. fold o.
   assert (E0 : (p_len o =? 0)%N = false) by lia. rewrite E0.
   assert (E : ((Z.of_N (p_seqno o) =? Z.of_N (p_seqno o))%Z && (p_fragment o =? p_fragment o)%Z) = true) by lia.
-  rewrite E. cbn [negb]. cbn.
+  rewrite E. cbn [negb].
+  assert (E1 : (p_sentlen o =? 0)%N = false) by lia. rewrite E1. cbn.
   assert (E2 : (p_len o <=? p_offset o + p_sentlen o)%N = false) by lia. rewrite E2. cbn. auto.
 Qed.
 
